@@ -37,7 +37,7 @@ def run_engine(P, tier="quick", extra_roots=()):
     roots = list(E_) + [r for r in extra_roots if r not in E_]
     if tier == "thorough":
         roots += [r for r in I if r not in roots]
-    eng = Engine(P, depth_limit=12 if tier == "quick" else 16)
+    eng = Engine(P, depth_limit=32 if tier == "quick" else 40)
     eng.docpanic = set(D)
     eng.just = load_justifications()
     from roots import deprecated
@@ -94,7 +94,8 @@ def report(chk, P, res, rid, desc, fn_filter=None, kinds=None, floor=1):
     for r, e in res["failed"]:
         if fn_filter is None or fn_filter(r):
             chk.bad("engine-failure:" + r, "abstract interpreter failed on root %s: %s" % (r, e), rid=rid)
-    chk.extra.setdefault("absint", {})[rid] = {"justified": nj, "contexts": eng.contexts, "functions": len(eng.fn_analysed), "roots": len(res["roots"])}
+    chk.extra.setdefault("absint", {})[rid] = {"justified": nj, "contexts": eng.contexts, "functions": len(eng.fn_analysed), "roots": len(res["roots"]),
+                                                 "depth_fallbacks_to_full_range_summary": eng.cutoffs}
     return nj
 
 
